@@ -238,10 +238,19 @@ func (g *tplGen) elem(d int, condKind string) string {
 	}
 	r.shuffle(as)
 	// an unquoted value ending in '/' must not be written last: `<x a=b/>` is read as a self-closing tag
-	if n := len(as); n > 1 && strings.HasSuffix(as[n-1], "/") {
-		as[0], as[n-1] = as[n-1], as[0]
-	} else if n == 1 && strings.HasSuffix(as[0], "/") {
-		as = append(as, " id=x")
+	{
+		var slash, other []string
+		for _, a := range as {
+			if strings.HasSuffix(a, "/") {
+				slash = append(slash, a)
+			} else {
+				other = append(other, a)
+			}
+		}
+		if len(slash) > 0 && len(other) == 0 {
+			other = append(other, " data-z=1")
+		}
+		as = append(slash, other...)
 	}
 	open := "<" + tag + strings.Join(as, "")
 	var out string
